@@ -1,20 +1,26 @@
 (* C11 — a finer-grained model of ONE superglobal ($_GET, node/globals_get_variable.go) with a
-   scheduling point INSIDE the lazy fill, where the verif yield hook sits:
+   scheduling point INSIDE the lazy fill, where the verif yield hook sits (code after fix: snapshot,
+   build a local object, publish):
 
-       if getValue == nil {
-           getValue = data.NewObjectValue()          // (a) allocate
+       cached := getValue                            // snapshot
+       if cached == nil {
+           fresh := data.NewObjectValue()            // (a) allocate a LOCAL object
            -- verifYield("get.fill") --              // another request may run here
-           for key, values := range query { getValue.SetProperty(key, ...) }   // (b) fill: re-reads the
-       }                                             //     package variable: nil => nil dereference
-       return getValue
+           ... fill fresh from the calling request ...
+           getValue = fresh; cached = fresh          // (b) publish
+       }
+       return cached
 
-   The cache is nil, or an object holding the query data of some request (or nothing yet).
-   A request's stage now ends at a gate (end of a segment) OR at the yield point.  No proofs here. *)
+   The cache is nil, or an object holding the query data of some request.  A request's stage ends at a
+   gate (end of a segment) OR at the yield point.  (Before the fix the fill wrote through the package
+   variable: a reset by another request in between made the request dereference nil — `fcrashed`, kept
+   in the record and always false now, is what the tie compares with "the request panicked".)
+   No proofs here. *)
 From Coq Require Export List Arith Bool.
 Export ListNotations.
 
 Inductive frd := FGet | FPriv.                     (* $_GET["id"]  |  a local / request-object read *)
-Inductive fcache := FNil | FObj (content : option nat).
+Inductive fcache := FNil | FObj (content : option nat).   (* content = whose data the published object holds *)
 
 Record freq := { fsegs : list (list frd);   (* head = what is lft of the current segment *)
                  fstarted : bool;
@@ -30,7 +36,7 @@ Fixpoint fexec (c : fcache) (r : nat) (xs : list frd) : fcache * list (option na
   | FPriv :: rest => let '(c', vs, lft, pend) := fexec c r rest in (c', Some r :: vs, lft, pend)
   | FGet :: rest =>
       match c with
-      | FNil => (FObj None, [], rest, true)                    (* (a) allocate, then park *)
+      | FNil => (FNil, [], rest, true)                         (* (a) allocate a local object, then park *)
       | FObj content => let '(c', vs, lft, pend) := fexec c r rest in (c', content :: vs, lft, pend)
       end
   end.
@@ -52,16 +58,12 @@ Definition fstep (s : fstate) (i : nat) : fstate :=
         | cur :: rest =>
             if fpending q then
               (* (b) resume inside the fill *)
-              match fc s with
-              | FNil => {| fc := FNil; freqs := fupd (freqs s) i {| fsegs := fsegs q; fstarted := true; fpending := true; fcrashed := true; fgot := fgot q |} |}
-              | FObj _ =>
-                  let c1 := FObj (Some (frid i)) in             (* SetProperty("id", own) on whatever object is there *)
-                  let '(c2, vs, lft, pend) := fexec c1 (frid i) cur in
-                  {| fc := c2;
-                     freqs := fupd (freqs s) i {| fsegs := (if pend then lft :: rest else rest);
-                                                  fstarted := true; fpending := pend; fcrashed := false;
-                                                  fgot := (fgot q ++ Some (frid i) :: vs)%list |} |}
-              end
+              let c1 := FObj (Some (frid i)) in                 (* publish the own, locally built object *)
+              let '(c2, vs, lft, pend) := fexec c1 (frid i) cur in
+              {| fc := c2;
+                 freqs := fupd (freqs s) i {| fsegs := (if pend then lft :: rest else rest);
+                                              fstarted := true; fpending := pend; fcrashed := false;
+                                              fgot := (fgot q ++ Some (frid i) :: vs)%list |} |}
             else
               let '(c2, vs, lft, pend) := fexec (fc s) (frid i) cur in
               {| fc := c2;
